@@ -67,6 +67,14 @@ var encCfgs = []encCfg{
 		err := e.Encode(x)
 		return b.Bytes(), err
 	}},
+	// the two colour interpreters, with a colour scheme that adds nothing to the text
+	{"MarshalWithOption(Colorize(empty))", func(x any) ([]byte, error) {
+		return gojson.MarshalWithOption(x, gojson.Colorize(&gojson.ColorScheme{}))
+	},
+		func(x any) ([]byte, error) { return stdjson.Marshal(x) }},
+	{"MarshalIndentWithOption(Colorize(empty))", func(x any) ([]byte, error) {
+		return gojson.MarshalIndentWithOption(x, "", " ", gojson.Colorize(&gojson.ColorScheme{}))
+	}, func(x any) ([]byte, error) { return stdjson.MarshalIndent(x, "", " ") }},
 }
 
 // presentations of a value
@@ -316,7 +324,7 @@ func c01Positions(c *rt.Ctx, kind gen.PositionKind, monitor string) {
 			}
 			for pi, p := range presentations(v) {
 				for ci := range encCfgs {
-					if pi > 0 && ci != 0 && ci != 1+(sub+pi)%4 {
+					if pi > 0 && ci != 0 && ci != 1+(sub+pi)%6 {
 						continue
 					}
 					encCompare(c, sub, monitor, &encCfgs[ci], p.name, p.x, p.t, p.v, "")
@@ -358,7 +366,7 @@ func init() {
 						heap0 := heapInUse()
 						for pi, p := range presentations(v) {
 							for ci := range encCfgs {
-								if pi > 0 && ci != 0 && ci != 1+(sub+pi)%4 {
+								if pi > 0 && ci != 0 && ci != 1+(sub+pi)%6 {
 									continue
 								}
 								encCompare(c, sub, "enc-diff", &encCfgs[ci], p.name, p.x, p.t, p.v, feat)
